@@ -494,7 +494,9 @@ def check(rep, tier, seed):
             meta.append(("numeric", op))
     for tx in ["(string->number \"100000000000000000000/3e2\")", "(string->number \"18446744073709551616/3.\")",
                "(string->number \"1/0\")", "(string->number \"18446744073709551616/0\")", "(string->number \"1e35301376\")",
-               "(string->number \"#e1e400\")", "(string->number \"1/2/3\")", "(string->number \"+i\" 36)"]:
+               "(string->number \"#e1e400\")", "(string->number \"1/2/3\")", "(string->number \"+i\" 36)",
+               "(string->number \"1/.1@1\")", "(string->number \"10000000/00.-0.1i\")", "(string->number \"229/211@49362486282f9670\")",
+               "(string->number \"1/2@.5\")", "(string->number \"3/0.5i\")", "(string->number \"#i100000000000000000000\")"]:
         items.append(("eval", tx))
         meta.append(("numeric", "string->number"))
     for i in range(0, len(items), 250):
